@@ -4,6 +4,7 @@ package main
 // and turns ensures / frame / refusal clauses into obligations.
 
 import (
+	"regexp"
 	"fmt"
 	"go/ast"
 	"go/token"
@@ -96,6 +97,32 @@ func (c *FCtx) bodyEnv(st *State, pos token.Pos) *CEnv {
 		return nil, false
 	}
 	return env
+}
+
+var calledRe = regexp.MustCompile(`called\(\s*"([^"]+)"\s*,\s*([0-9]+)\s*\)`)
+
+// calledKeys: the call sites ("pkg.F#k") a contract refers to through `called("pkg.F", k)`
+func calledKeys(con *Contract) []string {
+	seen := map[string]bool{}
+	var out []string
+	scan := func(cls []*Clause) {
+		for _, cl := range cls {
+			for _, m := range calledRe.FindAllStringSubmatch(cl.Src, -1) {
+				k := m[1] + "#" + m[2]
+				if !seen[k] {
+					seen[k] = true
+					out = append(out, k)
+				}
+			}
+		}
+	}
+	scan(con.Ensures)
+	scan(con.Exits)
+	for _, ls := range con.Loops {
+		scan(ls.Invs)
+		scan(ls.Asserts)
+	}
+	return out
 }
 
 // exitEnv: environment for ensures at a return: parameters denote their entry values.
@@ -294,6 +321,13 @@ func (c *FCtx) run(alias [2]string) {
 		c.obls[n-1].ExpectSat = true
 	} else {
 		c.obls = append(c.obls, &Obligation{Name: c.curFunc + "/cover-pre", Func: fi.Key, Kind: "cover", Hyps: append([]*Term(nil), st.pc...), Goal: True(), ExpectSat: true, Pos: con.Pos, Variant: c.variant})
+	}
+	// ghost call flags for `called("pkg.F", k)` in exit / ensures clauses: false at entry, set at the call site
+	c.ghosts = map[string]*types.Var{}
+	for _, key := range calledKeys(con) {
+		g := types.NewVar(token.NoPos, fi.Pkg.Types, "called$"+key, types.Typ[types.Bool])
+		c.ghosts[key] = g
+		c.declare(st, g, boolSV(False()))
 	}
 	c.exitApplied = map[int]int{}
 	flows := c.execBlock(st, fi.Decl.Body.List)
